@@ -1029,3 +1029,187 @@ mod test {
         }
     }
 }
+
+/// Verification hooks (cargo feature `verif`, add-only): the parsed debug information as the
+/// debugger stores it, and thin wrappers over the lookup functions.
+#[cfg(feature = "verif")]
+pub mod verif_hooks {
+    use super::*;
+    pub use crate::debugger::debugee::dwarf::unit::VerifLineRow;
+
+    /// A function DIE as indexed by the unit.
+    #[derive(Debug, Clone)]
+    pub struct VerifFunction {
+        pub die_offset: usize,
+        pub name: Option<String>,
+        pub linkage_name: Option<String>,
+        pub full_name: Option<String>,
+        pub decl_file_line: Option<(u64, u64)>,
+        /// DIE ranges in DWARF order: `(begin, end)`.
+        pub ranges: Vec<(u64, u64)>,
+    }
+
+    /// A compilation unit as stored.
+    #[derive(Debug, Clone)]
+    pub struct VerifUnit {
+        pub idx: usize,
+        pub name: Option<String>,
+        pub offset: Option<usize>,
+        /// Unit ranges in stored order: `(begin, end)`.
+        pub ranges: Vec<(u64, u64)>,
+        pub files: Vec<PathBuf>,
+        /// Line rows in stored order.
+        pub rows: Vec<VerifLineRow>,
+        /// Function DIE ranges in stored order: `(begin, end, die offset)`.
+        pub fn_ranges: Vec<(u64, u64, usize)>,
+        /// Functions ordered by DIE offset.
+        pub functions: Vec<VerifFunction>,
+    }
+
+    /// A place (line row of a unit) returned by a lookup.
+    #[derive(Debug, Clone, PartialEq, Eq)]
+    pub struct VerifPlace {
+        pub unit_idx: usize,
+        pub pos_in_unit: usize,
+        pub address: u64,
+        pub file: PathBuf,
+        pub file_idx: u64,
+        pub line: u64,
+        pub column: u64,
+        pub is_stmt: bool,
+        pub prologue_end: bool,
+        pub epilogue_begin: bool,
+        pub end_sequence: bool,
+    }
+
+    impl From<&PlaceDescriptor<'_>> for VerifPlace {
+        fn from(p: &PlaceDescriptor<'_>) -> Self {
+            VerifPlace {
+                unit_idx: p.verif_unit_idx(),
+                pos_in_unit: p.pos_in_unit,
+                address: u64::from(p.address),
+                file: p.file.to_path_buf(),
+                file_idx: p.file_idx,
+                line: p.line_number,
+                column: p.column_number,
+                is_stmt: p.is_stmt,
+                prologue_end: p.prolog_end,
+                epilogue_begin: p.epilog_begin,
+                end_sequence: p.end_sequence,
+            }
+        }
+    }
+
+    impl DebugInformation {
+        /// Dump of every unit: ranges, files, line rows, function ranges and functions,
+        /// all in the order the lookups see them.
+        pub fn verif_dump_units(&self) -> Result<Vec<VerifUnit>, Error> {
+            let units = self.get_units()?;
+            let mut result = Vec::with_capacity(units.len());
+            for unit in units {
+                let fn_ranges = resolve_unit_call!(self.dwarf(), unit, fn_ranges);
+                let functions = resolve_unit_call!(self.dwarf(), unit, verif_functions);
+                result.push(VerifUnit {
+                    idx: unit.idx(),
+                    name: unit.name.clone(),
+                    offset: unit.offset().map(|o| o.0),
+                    ranges: unit.ranges().iter().map(|r| (r.begin, r.end)).collect(),
+                    files: unit.files().to_vec(),
+                    rows: unit.verif_line_rows(),
+                    fn_ranges: fn_ranges
+                        .iter()
+                        .map(|dr| (dr.range.begin, dr.range.end, dr.die_off.0))
+                        .collect(),
+                    functions: functions
+                        .into_iter()
+                        .map(|(off, info)| VerifFunction {
+                            die_offset: off.0,
+                            name: info.name.clone(),
+                            linkage_name: info.linkage_name.clone(),
+                            full_name: info.full_name(),
+                            decl_file_line: info.decl_file_line,
+                            ranges: FatDieRef::new_func(self, unit.idx(), off)
+                                .ranges()
+                                .iter()
+                                .map(|r| (r.begin, r.end))
+                                .collect(),
+                        })
+                        .collect(),
+                });
+            }
+            Ok(result)
+        }
+
+        /// [`DebugInformation::find_unit_by_pc`], as unit index.
+        pub fn verif_find_unit_by_pc(&self, pc: GlobalAddress) -> Result<Option<usize>, Error> {
+            Ok(self.find_unit_by_pc(pc)?.map(|u| u.idx()))
+        }
+
+        /// [`DebugInformation::find_place_from_pc`].
+        pub fn verif_find_place_from_pc(
+            &self,
+            pc: GlobalAddress,
+        ) -> Result<Option<VerifPlace>, Error> {
+            Ok(self.find_place_from_pc(pc)?.as_ref().map(VerifPlace::from))
+        }
+
+        /// [`DebugInformation::find_exact_place_from_pc`].
+        pub fn verif_find_exact_place_from_pc(
+            &self,
+            pc: GlobalAddress,
+        ) -> Result<Option<VerifPlace>, Error> {
+            Ok(self
+                .find_exact_place_from_pc(pc)?
+                .as_ref()
+                .map(VerifPlace::from))
+        }
+
+        /// [`DebugInformation::find_function_by_pc`], as `(unit index, die offset)`.
+        pub fn verif_find_function_by_pc(
+            &self,
+            pc: GlobalAddress,
+        ) -> Result<Option<(usize, usize)>, Error> {
+            Ok(self
+                .find_function_by_pc(pc)?
+                .map(|(func, _)| (func.unit().idx(), func.verif_die_offset())))
+        }
+
+        /// [`DebugInformation::find_closest_place`].
+        pub fn verif_find_closest_place(
+            &self,
+            file_tpl: &str,
+            line: u64,
+        ) -> Result<Vec<VerifPlace>, Error> {
+            Ok(self
+                .find_closest_place(file_tpl, line)?
+                .iter()
+                .map(VerifPlace::from)
+                .collect())
+        }
+
+        /// [`DebugInformation::find_places_in_line_range`].
+        pub fn verif_find_places_in_line_range(
+            &self,
+            file_tpl: &str,
+            start_line: u64,
+            end_line: u64,
+        ) -> Result<Vec<VerifPlace>, Error> {
+            Ok(self
+                .find_places_in_line_range(file_tpl, start_line, end_line)?
+                .iter()
+                .map(VerifPlace::from)
+                .collect())
+        }
+
+        /// `prolog_end_place` of the function DIE `die_offset` of unit `unit_idx`
+        /// (what a function breakpoint resolves to).
+        pub fn verif_prolog_end_place(
+            &self,
+            unit_idx: usize,
+            die_offset: usize,
+        ) -> Result<VerifPlace, Error> {
+            let func = FatDieRef::new_func(self, unit_idx, UnitOffset(die_offset));
+            func.prolog_end_place().map(|p| VerifPlace::from(&p))
+        }
+    }
+}
